@@ -64,7 +64,15 @@ macro_rules! range_row {
                 1 => Enc::default(),
                 _ => Enc::with_backend(Vec::new()),
             };
-            let max_syms = if ctx.tier == 0 { 80 } else { 2000 };
+            // C12 only: greedy adversary, see ansmsg.rs
+            let adversarial = mode == 12 && src.bool();
+            ctx.label_if(adversarial, "adversarial_symbol_choice");
+            let max_syms = match (mode == 12, ctx.tier == 0) {
+                (true, true) => 1500,
+                (true, false) => 20000,
+                (false, true) => 80,
+                (false, false) => 2000,
+            };
             let mut msg: Vec<(usize, Tab)> = Vec::new();
             let mut refc = RefRange::new(sbits as u32, wbits as u32);
             let mut cur_sel: u8 = src.below(PRECS.len() as u64) as u8;
@@ -74,7 +82,7 @@ macro_rules! range_row {
             // choices that concern the end of the case are drawn first (the message consumes the rest)
             let via = src.below(8);
             let kfrac = src.below(256) as usize;
-            let situation = |e: &Enc| e.clone().into_raw_parts().2;
+            let situation = |e: &Enc| if adversarial { EncoderSituation::Normal } else { e.clone().into_raw_parts().2 };
             let export = |e: &Enc| -> Vec<$W> {
                 match e.clone().into_compressed() {
                     Ok(v) => v,
@@ -82,21 +90,53 @@ macro_rules! range_row {
                 }
             };
             let mut held_prev = 0usize;
+            let mut run_left = 0usize;
+            let mut run_tab: Option<Tab> = None;
 
             if mode == 18 {
                 vcheck!(enc.is_empty() && enc.num_words() == 0 && enc.num_bits() == 0, "C18/range_fresh_encoder_not_empty", "fresh encoder: is_empty={} num_words={}", enc.is_empty(), enc.num_words());
             }
 
-            while msg.len() < max_syms && !src.is_empty() {
-                if src.ratio(1, 4) {
+            while msg.len() < max_syms && (!src.is_empty() || run_left > 0) {
+                if run_left == 0 && src.ratio(1, 4) {
                     let s = src.below(PRECS.len() as u64) as u8;
                     if s != cur_sel {
                         ctx.label("precision_changed");
                     }
                     cur_sel = s;
                 }
-                let tab = gen_tab(src, PRECS[cur_sel as usize], cur_sel, 8);
-                let sym = src.below_usize(tab.n());
+                let tab = if run_left > 0 {
+                    run_left -= 1;
+                    run_tab.clone().expect("harness")
+                } else {
+                    let t = gen_tab(src, PRECS[cur_sel as usize], cur_sel, 8);
+                    if adversarial {
+                        run_left = src.below_usize(48);
+                        run_tab = Some(t.clone());
+                    }
+                    t
+                };
+                let sym = if adversarial {
+                    let st0 = enc.state();
+                    let l0 = (st0.range().get() as f64).log2();
+                    let mut best = (f64::MIN, 0usize);
+                    for s in 0..tab.n() {
+                        let mut twin = RangeEncoder::<$W, $S, Vec<$W>>::from_raw_parts(Vec::new(), st0, EncoderSituation::Normal);
+                        let r = with_prec!(tab.sel, $plist, |M| twin.encode_symbol(s, M::new(&tab)));
+                        if r.is_err() {
+                            continue;
+                        }
+                        let (b, st1, sit1) = twin.into_raw_parts();
+                        let emitted = b.len() + match sit1 { EncoderSituation::Inverted(n, _) => n.get(), EncoderSituation::Normal => 0 };
+                        let waste = (wbits * emitted) as f64 - (st1.range().get() as f64).log2() + l0 - (tab.prec as f64 - (tab.prob(s) as f64).log2());
+                        if waste > best.0 {
+                            best = (waste, s);
+                        }
+                    }
+                    best.1
+                } else {
+                    src.below_usize(tab.n())
+                };
                 note!(ctx, "encode sym={} {}", sym, tab.render());
                 let (c, p, prec) = (tab.left(sym), tab.prob(sym), tab.prec);
                 if p == 1 {
